@@ -14,6 +14,7 @@ package main
 import (
 	"fmt"
 	"go/types"
+	"math/big"
 )
 
 // sliceHeaderOf converts a loaded slice into the {Data, Len, Cap} header struct.
@@ -41,7 +42,31 @@ func (fr *FnRun) viewOfHeader(st *State, h *StructV, to types.Type, site string)
 		panic(abortf("slice header reinterpreted as slice of %d-byte elements", sz))
 	}
 	if isTypeParam(u.Elem) {
-		panic(abortf("byte view of a slice of type parameter %s", u.Elem))
+		// The element layout is unknown: the view is modelled as a separate byte array of the view's
+		// length (contents unknown), the reinterpretation is still checked for memory safety against
+		// size*cap0, and the typed array's contents become unknown (whatever is written through the
+		// view is not reflected back: typed contents after such a view are never relied on - they are
+		// havocked here and the function's contract must not state anything about them).
+		l, c := h.F[1].(*Term), h.F[2].(*Term)
+		sz := fr.sizeofTerm(st, u.Elem)
+		// runtime invariant of every Go slice: its backing array fits in the address space, and its
+		// length is within its capacity (monotonicity of the product is spelled out for the solver)
+		st.assume(Lt(Mul(sz, u.OrigCap), IntB(new(big.Int).Lsh(big.NewInt(1), 63))))
+		st.assume(And(Le(Int(0), Mul(sz, u.OrigLen)), Le(Mul(sz, u.OrigLen), Mul(sz, u.OrigCap))))
+		fr.ex.Assumptions["a slice's backing array fits in the address space (size*cap < 2^63): Go runtime invariant, used for byte views of type-parameter slices"] = true
+		goal := And(Le(Int(0), l), Le(l, c), Le(c, Mul(sz, u.OrigCap)))
+		fr.oblige(st, "view", site, goal, nil, "reinterpreted slice stays inside the original array (len <= cap <= size*cap0)")
+		st.assume(goal)
+		fr.ex.Assumptions["byte view of a slice whose element type is a type parameter: modelled as a separate byte array of the same length, typed contents havocked (ColRawOf)"] = true
+		if u.Arr != nil {
+			if av, ok := st.heap[u.Arr].(*ArrayV); ok {
+				st.heap[u.Arr] = &ArrayV{Elem: av.Elem, N: av.N, Data: fr.ex.freshArrData(av.Elem, fr.ex.fresh(u.Arr.Name+"!viewed"))}
+			}
+		}
+		o := fr.ex.newObj(fr.ex.fresh("paramview"), types.NewSlice(sl.Elem()))
+		o.IsArr = true
+		st.heap[o] = &ArrayV{Elem: sl.Elem(), N: -1, Data: fr.ex.freshArrData(sl.Elem(), o.Name)}
+		return &SliceV{Nil: u.NilT, Arr: o, Off: Int(0), Len: l, Cap: c, Elem: sl.Elem()}
 	}
 	w := fr.ex.sizeOf(u.Elem)
 	if w <= 0 || w > 512 {
